@@ -87,7 +87,7 @@ def stepMacros (m : Macros) : ACmd → Macros
 /-- the first entry with a key (up to case) wins -/
 def stepDenot (m : Macros) (D : Denot) : ACmd → Denot
   | .entry ty key fs =>
-    if D.entries.any (fun e => lower e.key = lower key) then D
+    if D.entries.any (fun e => keyFold e.key = keyFold key) then D
     else { D with entries := D.entries ++ [denoteEntry m ty key fs] }
   | .preamble v => { D with preamble := D.preamble ++ [normalizeWs (expand m v)] }
   | _ => D
@@ -162,7 +162,7 @@ structure CmdLayout where
   pieces : List PieceLayout := []
   afterValue : Str := []
   fields : List FieldLayout := []
-  /-- a comma after the last field (always written when there is no field) -/
+  /-- a comma after the last field, or after the key of a field-less entry: `@a{k,}` vs `@a{k}` -/
   trailing : Bool := false
   afterTrailing : Str := []
   afterClose : Str := []
@@ -216,7 +216,7 @@ def renderCmd : ACmd → CmdLayout → Str
   | .entry ty key fs, l =>
     '@' :: l.afterAt ++ applyMask ty l.mask ++ l.beforeOpen ++ opener l.paren :: l.afterOpen ++
       key ++ l.afterKey ++ renderFields fs l.fields ++
-      (if l.trailing || fs.isEmpty then ',' :: l.afterTrailing else []) ++ closer l.paren :: l.afterClose
+      (if l.trailing then ',' :: l.afterTrailing else []) ++ closer l.paren :: l.afterClose
 
 /-- the text of a document under a layout -/
 def render : ADoc → Layout → Str
@@ -339,7 +339,14 @@ def atFree (s : Str) : Bool := s.all (· ≠ '@')
 
 def reserved : List Str := ["string".toList, "preamble".toList, "comment".toList]
 
-/-- `keys` = lower-cased keys of the preceding entries -/
+/-- A field-less entry without the comma, `@a{k}` / `@a(k )`: in parentheses the key pattern is
+`[^\s,]+`, which would take the `)` for a part of the key, so white space has to follow the key
+(in braces the pattern `[^\s,}]+` stops in front of the `}`). -/
+def bareKeyOk (fs : List (Str × Value)) (l : CmdLayout) : Bool :=
+  !l.paren || l.trailing || !fs.isEmpty || l.afterKey ≠ []
+
+/-- `keys` = the keys of the preceding entries, folded as the database folds them (`keyFold` =
+`str.lower()`, the Unicode mapping) -/
 def cmdOk (m : Macros) (keys : List Str) : ACmd → CmdLayout → Bool
   | .junk txt, _ => atFree txt
   | .comment txt, l =>
@@ -352,13 +359,13 @@ def cmdOk (m : Macros) (keys : List Str) : ACmd → CmdLayout → Bool
     wsOk l.afterAt && wsOk l.beforeOpen && wsOk l.afterOpen && wsOk l.beforeEq && wsOk l.afterEq &&
     wsOk l.afterValue && wsOk l.afterClose
   | .entry ty key fs, l =>
-    isName ty && !reserved.contains (lower ty) && keyOk l.paren key && !keys.contains (lower key) &&
+    isName ty && !reserved.contains (lower ty) && keyOk l.paren key && !keys.contains (keyFold key) &&
     fieldsOk m [] fs l.fields &&
     wsOk l.afterAt && wsOk l.beforeOpen && wsOk l.afterOpen && wsOk l.afterKey &&
-    wsOk l.afterTrailing && wsOk l.afterClose
+    wsOk l.afterTrailing && wsOk l.afterClose && bareKeyOk fs l
 
 def stepKeys (keys : List Str) : ACmd → List Str
-  | .entry _ key _ => lower key :: keys
+  | .entry _ key _ => keyFold key :: keys
   | _ => keys
 
 def wfFrom : Macros → List Str → ADoc → Layout → Bool
@@ -370,10 +377,136 @@ def wfFrom : Macros → List Str → ADoc → Layout → Bool
 `preamble` / `comment`), keys are scannable, literals are brace-balanced (nesting ≤ 100) and
 spelled in an admissible way, values are non-empty, a macro is used only after its definition
 (or is a month), person names are acceptable, no two entries have the same key and no entry has
-two fields of the same name (up to case), junk and comment text are `@`-free, and all white
-space consists of white-space code points. -/
+two fields of the same name (up to case), junk and comment text are `@`-free, all white
+space consists of white-space code points, and a field-less entry in parentheses without the
+comma has white space behind its key (`bareKeyOk`). -/
 def WF (d : ADoc) (L : Layout) : Prop := wfFrom initMacros [] d L = true
 
 instance (d : ADoc) (L : Layout) : Decidable (WF d L) := by unfold WF; infer_instance
+
+/-! ### documents that may repeat field names and keys
+
+`WF` forbids two fields of one entry with the same name and two entries with the same key (up to
+case).  `WFD` is `WF` without these two conditions; what such a document denotes (`denoteD`: the
+first field of a name and the first entry of a key win) and what has to be reported about it
+(`reports`) is defined here. -/
+
+/-- the fields of an entry that count: a field whose name equals an earlier one of the entry up to
+case is dropped (`seen` = lower-cased names of the fields so far) -/
+def firstFields : List Str → List (Str × Value) → List (Str × Value)
+  | _, [] => []
+  | seen, f :: fs =>
+    if seen.contains (lower f.1) then firstFields seen fs
+    else f :: firstFields (lower f.1 :: seen) fs
+
+/-- one `DuplicateField` report (entry key, field name as written, no line) for every dropped
+field, in source order -/
+def fieldReports (key : Str) : List Str → List (Str × Value) → List Err
+  | _, [] => []
+  | seen, f :: fs =>
+    if seen.contains (lower f.1) then ⟨.duplicateField key f.1, none⟩ :: fieldReports key seen fs
+    else fieldReports key (lower f.1 :: seen) fs
+
+/-- the entry of an entry command whose fields may repeat names: only the first field of every
+name (up to case) counts -/
+def denoteEntryD (m : Macros) (ty key : Str) (fs : List (Str × Value)) : Entry :=
+  (firstFields [] fs).foldl (denoteField m) { key := key, type := lower ty, origType := ty, fields := [], persons := [] }
+
+/-- the first entry with a key (up to case) wins -/
+def stepDenotD (m : Macros) (D : Denot) : ACmd → Denot
+  | .entry ty key fs =>
+    if D.entries.any (fun e => keyFold e.key = keyFold key) then D
+    else { D with entries := D.entries ++ [denoteEntryD m ty key fs] }
+  | .preamble v => { D with preamble := D.preamble ++ [normalizeWs (expand m v)] }
+  | _ => D
+
+def denoteFromD : Macros → Denot → ADoc → Denot
+  | _, D, [] => D
+  | m, D, c :: cs => denoteFromD (stepMacros m c) (stepDenotD m D c) cs
+
+/-- the database a document denotes when field names and keys may repeat -/
+def denoteD (d : ADoc) : Denot := denoteFromD initMacros {} d
+
+/-- the reports of one command (`keys` = folded keys, `keyFold`, of the preceding entry commands): an entry
+yields its duplicate-field reports and then, if its key repeats an earlier one up to case, one
+`repeated bibliography entry` report (the entry is dropped after its fields were processed).
+An earlier entry that was itself dropped repeats a still earlier key, so "an earlier entry
+command has this key" and "an entry of the database so far has this key" (the test of
+`stepDenotD`) are the same condition. -/
+def cmdReports (keys : List Str) : ACmd → List Err
+  | .entry _ key fs =>
+    fieldReports key [] fs ++ (if keys.contains (keyFold key) then [⟨.repeatedEntry key, none⟩] else [])
+  | _ => []
+
+def reportsFrom : List Str → ADoc → List Err
+  | _, [] => []
+  | keys, c :: cs => cmdReports keys c ++ reportsFrom (stepKeys keys c) cs
+
+/-- what has to be reported about a document, in document order -/
+def reports (d : ADoc) : List Err := reportsFrom [] d
+
+/-- `fieldsOk` without the condition that the name is new -/
+def fieldsOkD (m : Macros) : List (Str × Value) → List FieldLayout → Bool
+  | [], _ => true
+  | f :: fs, ls =>
+    let l := ls.headD {}
+    isName f.1 && valueOk m f.2 l.pieces &&
+    wsOk l.beforeName && wsOk l.beforeEq && wsOk l.afterEq && wsOk l.afterValue &&
+    (!isPersonField f.1 || (splitNameList (normalizeWs (expand m f.2))).all personOk) &&
+    fieldsOkD m fs ls.tail
+
+/-- `cmdOk` without the condition that the key is new (and with `fieldsOkD`) -/
+def cmdOkD (m : Macros) : ACmd → CmdLayout → Bool
+  | .junk txt, _ => atFree txt
+  | .comment txt, l =>
+    atFree txt && wsOk l.afterAt && wsOk l.beforeOpen && wsOk l.afterClose
+  | .preamble v, l =>
+    valueOk m v l.pieces &&
+    wsOk l.afterAt && wsOk l.beforeOpen && wsOk l.afterOpen && wsOk l.afterValue && wsOk l.afterClose
+  | .strdef n v, l =>
+    isName n && valueOk m v l.pieces &&
+    wsOk l.afterAt && wsOk l.beforeOpen && wsOk l.afterOpen && wsOk l.beforeEq && wsOk l.afterEq &&
+    wsOk l.afterValue && wsOk l.afterClose
+  | .entry ty key fs, l =>
+    isName ty && !reserved.contains (lower ty) && keyOk l.paren key &&
+    fieldsOkD m fs l.fields &&
+    wsOk l.afterAt && wsOk l.beforeOpen && wsOk l.afterOpen && wsOk l.afterKey &&
+    wsOk l.afterTrailing && wsOk l.afterClose && bareKeyOk fs l
+
+def wfFromD : Macros → ADoc → Layout → Bool
+  | _, [], _ => true
+  | m, c :: cs, ls => cmdOkD m c (ls.headD {}) && wfFromD (stepMacros m c) cs ls.tail
+
+/-- `WF` without "no two entries have the same key and no entry has two fields of the same name":
+everything the scanner and the name parser need, nothing about repetitions.  (A dropped field
+still has to hold acceptable person names if it is a person field: simpler, and harmless.) -/
+def WFD (d : ADoc) (L : Layout) : Prop := wfFromD initMacros d L = true
+
+instance (d : ADoc) (L : Layout) : Decidable (WFD d L) := by unfold WFD; infer_instance
+
+/-- no field name repeats one of `seen` or an earlier one (up to case) -/
+def freshNames : List Str → List (Str × Value) → Bool
+  | _, [] => true
+  | seen, f :: fs => !seen.contains (lower f.1) && freshNames (lower f.1 :: seen) fs
+
+/-- no entry repeats a field name, no key repeats one of `keys` or an earlier one (up to case):
+exactly what `WF` asks on top of `WFD` -/
+def noDups : List Str → ADoc → Bool
+  | _, [] => true
+  | keys, .entry ty key fs :: cs =>
+    !keys.contains (keyFold key) && freshNames [] fs && noDups (stepKeys keys (.entry ty key fs)) cs
+  | keys, _ :: cs => noDups keys cs
+
+/-- the entry commands that count: the first of every key (`seen` = folded keys so far) -/
+def firstEntries : List Str → List (Macros × Str × Str × List (Str × Value)) →
+    List (Macros × Str × Str × List (Str × Value))
+  | _, [] => []
+  | seen, x :: xs =>
+    if seen.contains (keyFold x.2.2.1) then firstEntries seen xs
+    else x :: firstEntries (keyFold x.2.2.1 :: seen) xs
+
+/-- `entryOf` on the fields that count -/
+def entryOfD (x : Macros × Str × Str × List (Str × Value)) : Entry :=
+  entryOf (x.1, x.2.1, x.2.2.1, firstFields [] x.2.2.2)
 
 end Pybtex.BibSpec
